@@ -2,185 +2,123 @@ import FeatherModel.Lemmas.TotalBase
 import FeatherModel.Model.TotalAnno
 
 /-!
-# C16 — element values: the only panic is the exhausted stack; the recursion depth is at most `|input| / 3 + 2`;
-for every stack there is an input of `3·gas + 3` bytes that exhausts it
+# C16 — element values (after 835fdd2): no panic at all; the value that is read is nested at most `rem + 1` deep
+(256 from the top); a deeper input is an error
 -/
 
 namespace Total.Anno
 
 open TM
 
-def openSites : List Nat := [Sites.stackElementValue]
+variable {S : List Nat} {B : Nat}
 
-theorem iterMax_spec {S : List Nat} {B : Nat} {f : Rd Nat} (hf : ∀ s, Spec S B (f s) (fun _ => True)) :
-    ∀ n acc s, Spec S B (iterMax f n acc s) (fun _ => True)
-  | 0, acc, s => Spec.ret _ trivial
-  | n + 1, acc, s => by
+/-- postcondition of the value readers: a suffix is returned and the depth read is at most `K` -/
+def Post (s : Bytes) (K : Nat) (r : Nat × Bytes) : Prop := r.2.length ≤ s.length ∧ r.1 ≤ K
+
+theorem iterMax_spec {f : Rd Nat} {K : Nat} (hf : ∀ s, Spec S B (f s) (Post s K)) :
+    ∀ n acc s, acc ≤ K → Spec S B (iterMax f n acc s) (Post s K)
+  | 0, acc, s, ha => Spec.ret _ ⟨Nat.le_refl _, ha⟩
+  | n + 1, acc, s, ha => by
     unfold iterMax
-    exact Spec.bind (hf s) (fun ⟨d, s'⟩ _ => iterMax_spec hf n (max acc d) s')
+    refine Spec.bind (hf s) (fun ⟨d, s'⟩ h => ?_)
+    have h' : s'.length ≤ s.length ∧ d ≤ K := h
+    exact Spec.weaken (iterMax_spec hf n (max acc d) s' (Nat.max_le.mpr ⟨ha, h'.2⟩))
+      (fun r hr => ⟨Nat.le_trans hr.1 h'.1, hr.2⟩)
 
-theorem namedPair_spec {S : List Nat} {B : Nat} {f : Rd Nat} (hf : ∀ s, Spec S B (f s) (fun _ => True)) (s : Bytes) :
-    Spec S B (namedPair f s) (fun _ => True) := by
-  unfold namedPair
-  pin
-  exact hf _
-
-theorem constIndex_spec {S : List Nat} {B : Nat} (p : Nat → Bool) (s : Bytes) : Spec S B (constIndex p s) (fun _ => True) := by
-  unfold constIndex; pin
-
-macro_rules | `(tactic| pin_lemma) => `(tactic| with_reducible exact constIndex_spec _ _)
-
-theorem readValue_spec {S : List Nat} {B : Nat} (hS : Sites.stackElementValue ∈ S) :
-    ∀ gas level s, Spec S B (readValue gas level s) (fun _ => True)
-  | 0, level, s => by
-    unfold readValue
-    exact Spec.bind (Spec.enter _) (fun _ _ => Spec.crash hS)
-  | gas + 1, level, s => by
-    have ih := readValue_spec (B := B) hS gas (level + 1)
-    have h1 := fun n acc s => iterMax_spec ih n acc s
-    have h2 := fun n acc s => iterMax_spec (fun s => namedPair_spec ih s) n acc s
-    unfold readValue
-    pin
-    · exact h2 _ _ _
-    · exact h1 _ _ _
-
-theorem readPairs_spec {S : List Nat} {B : Nat} (hS : Sites.stackElementValue ∈ S) (gas : Nat) (s : Bytes) :
-    Spec S B (readPairs gas s) (fun _ => True) := by
-  unfold readPairs
-  pin
-  exact iterMax_spec (fun s => namedPair_spec (readValue_spec hS gas 1) s) _ _ _
-
-theorem annoOp_spec (gas : Nat) (body : Bytes) : Spec openSites 0 (annoOp gas body) (fun _ => True) := by
-  unfold annoOp
-  pin
-  exact readValue_spec (S := openSites) (by decide) _ _ _
-
-end Total.Anno
-
-namespace Total.Anno
-
-open TM
-
-/-! ## recursion depth: at most `|input| / 3 + 1` levels -/
-
-/-- `f` neither panics nor allocates on inputs of at most `L` bytes, and returns a suffix -/
-def Short (f : Rd Nat) (L : Nat) : Prop :=
-  ∀ s, s.length ≤ L → Spec [] 0 (f s) (fun r => r.2.length ≤ s.length)
-
-theorem iterMax_short {f : Rd Nat} {L : Nat} (hf : Short f L) :
-    ∀ n acc s, s.length ≤ L → Spec [] 0 (iterMax f n acc s) (fun r => r.2.length ≤ s.length)
-  | 0, acc, s, _ => Spec.ret _ (Nat.le_refl _)
-  | n + 1, acc, s, hs => by
-    unfold iterMax
-    refine Spec.bind (hf s hs) (fun ⟨d, s'⟩ h => ?_)
-    have h' : s'.length ≤ s.length := h
-    exact Spec.weaken (iterMax_short hf n (max acc d) s' (Nat.le_trans h' hs)) (fun r hr => Nat.le_trans hr h')
-
-theorem namedPair_short {f : Rd Nat} {L : Nat} (hf : Short f L) : Short (namedPair f) L := by
-  intro s hs
+theorem namedPair_spec {f : Rd Nat} {K : Nat} (hf : ∀ s, Spec S B (f s) (Post s K)) (s : Bytes) :
+    Spec S B (namedPair f s) (Post s K) := by
   unfold namedPair
   refine Spec.bind (Spec.u16 s) (fun ⟨name, s1⟩ h1 => ?_)
   have h1' : s.length = s1.length + 2 := h1.1
   refine Spec.bind (Spec.guard _) (fun _ _ => ?_)
-  exact Spec.weaken (hf s1 (by omega)) (fun r hr => by have : r.2.length ≤ s1.length := hr; omega)
+  exact Spec.weaken (hf s1) (fun r hr => ⟨by have := hr.1; omega, hr.2⟩)
 
-theorem constIndex_short (p : Nat → Bool) (s : Bytes) : Spec [] 0 (constIndex p s) (fun r => r.2.length ≤ s.length) := by
+theorem constIndex_spec (p : Nat → Bool) (s : Bytes) {K : Nat} (hK : 1 ≤ K) : Spec S B (constIndex p s) (Post s K) := by
   unfold constIndex
   refine Spec.bind (Spec.u16 s) (fun ⟨i, s1⟩ h1 => ?_)
   have h1' : s.length = s1.length + 2 := h1.1
   refine Spec.bind (Spec.guard _) (fun _ _ => ?_)
-  exact Spec.ret _ (by show s1.length ≤ s.length; omega)
+  exact Spec.ret _ ⟨by show s1.length ≤ s.length; omega, hK⟩
 
-/-- a leaf shorter than its input -/
-theorem leaf_short {m : TM (Nat × Bytes)} {s1 s : Bytes} (h : Spec [] 0 m (fun r => r.2.length ≤ s1.length))
-    (hs : s1.length ≤ s.length) : Spec [] 0 m (fun r => r.2.length ≤ s.length) :=
-  Spec.weaken h (fun _ hr => Nat.le_trans hr hs)
+theorem leaf {m : TM (Nat × Bytes)} {s1 s : Bytes} {K : Nat} (h : Spec S B m (Post s1 K)) (hs : s1.length ≤ s.length) :
+    Spec S B m (Post s K) :=
+  Spec.weaken h (fun _ hr => ⟨Nat.le_trans hr.1 hs, hr.2⟩)
 
-theorem readValue_short : ∀ gas level s, s.length + 1 ≤ 3 * gas →
-    Spec [] 0 (readValue gas level s) (fun r => r.2.length ≤ s.length)
-  | 0, level, s, hs => by omega
-  | gas + 1, level, s, hs => by
-    have ih : ∀ L, L + 1 ≤ 3 * gas → Short (readValue gas (level + 1)) L :=
-      fun L hL s' hs' => readValue_short gas (level + 1) s' (by omega)
-    unfold readValue
-    refine Spec.bind (Spec.enter _) (fun _ _ => ?_)
-    refine Spec.bind (Spec.u8 s) (fun ⟨tag, s1⟩ h1 => ?_)
-    have h1' : s.length = s1.length + 1 := h1.1
-    have hle : s1.length ≤ s.length := by omega
-    dsimp only
-    split
-    · exact leaf_short (constIndex_short _ s1) hle
-    split
-    · exact leaf_short (constIndex_short _ s1) hle
-    split
-    · exact leaf_short (constIndex_short _ s1) hle
-    split
-    · exact leaf_short (constIndex_short _ s1) hle
-    split
-    · exact leaf_short (constIndex_short _ s1) hle
-    split
-    · refine Spec.bind (Spec.u16 s1) (fun ⟨t, s2⟩ h2 => ?_)
-      have h2' : s1.length = s2.length + 2 := h2.1
-      refine Spec.bind (Spec.guard _) (fun _ _ => ?_)
-      exact leaf_short (constIndex_short _ s2) (by omega)
-    split
-    · exact leaf_short (constIndex_short _ s1) hle
-    split
-    · refine Spec.bind (Spec.u16 s1) (fun ⟨t, s2⟩ h2 => ?_)
-      have h2' : s1.length = s2.length + 2 := h2.1
-      refine Spec.bind (Spec.guard _) (fun _ _ => ?_)
+theorem readValueWith_spec {inner : Option (Rd Nat)} {K : Nat}
+    (hi : ∀ f, inner = some f → ∀ s, Spec S B (f s) (Post s K)) (s : Bytes) :
+    Spec S B (readValueWith inner s) (Post s (K + 1)) := by
+  unfold readValueWith
+  refine Spec.bind (Spec.u8 s) (fun ⟨tag, s1⟩ h1 => ?_)
+  have h1' : s.length = s1.length + 1 := h1.1
+  have hle : s1.length ≤ s.length := by omega
+  have hK : 1 ≤ K + 1 := by omega
+  dsimp only
+  split
+  · exact leaf (constIndex_spec _ s1 hK) hle
+  split
+  · exact leaf (constIndex_spec _ s1 hK) hle
+  split
+  · exact leaf (constIndex_spec _ s1 hK) hle
+  split
+  · exact leaf (constIndex_spec _ s1 hK) hle
+  split
+  · exact leaf (constIndex_spec _ s1 hK) hle
+  split
+  · refine Spec.bind (Spec.u16 s1) (fun ⟨t, s2⟩ h2 => ?_)
+    have h2' : s1.length = s2.length + 2 := h2.1
+    refine Spec.bind (Spec.guard _) (fun _ _ => ?_)
+    exact leaf (constIndex_spec _ s2 hK) (by omega)
+  split
+  · exact leaf (constIndex_spec _ s1 hK) hle
+  split
+  · refine Spec.bind (Spec.u16 s1) (fun ⟨t, s2⟩ h2 => ?_)
+    have h2' : s1.length = s2.length + 2 := h2.1
+    refine Spec.bind (Spec.guard _) (fun _ _ => ?_)
+    cases inner with
+    | none => exact Spec.fail
+    | some value =>
+      dsimp only
       refine Spec.bind (Spec.u16 s2) (fun ⟨n, s3⟩ h3 => ?_)
       have h3' : s2.length = s3.length + 2 := h3.1
-      have hsh : Short (namedPair (readValue gas (level + 1))) s3.length := namedPair_short (ih s3.length (by omega))
-      refine Spec.bind (iterMax_short hsh n 0 s3 (Nat.le_refl _)) (fun ⟨d, s4⟩ h4 => ?_)
-      have h4' : s4.length ≤ s3.length := h4
-      exact Spec.ret _ (by show s4.length ≤ s.length; omega)
-    split
-    · refine Spec.bind (Spec.u16 s1) (fun ⟨n, s2⟩ h2 => ?_)
+      refine Spec.bind (iterMax_spec (fun s => namedPair_spec (hi value rfl) s) n 0 s3 (Nat.zero_le _)) (fun ⟨d, s4⟩ h4 => ?_)
+      have h4' : s4.length ≤ s3.length ∧ d ≤ K := h4
+      exact Spec.ret _ ⟨by show s4.length ≤ s.length; omega, by show 1 + d ≤ K + 1; omega⟩
+  split
+  · cases inner with
+    | none => exact Spec.fail
+    | some value =>
+      dsimp only
+      refine Spec.bind (Spec.u16 s1) (fun ⟨n, s2⟩ h2 => ?_)
       have h2' : s1.length = s2.length + 2 := h2.1
-      refine Spec.bind (iterMax_short (ih s2.length (by omega)) n 0 s2 (Nat.le_refl _)) (fun ⟨d, s3⟩ h3 => ?_)
-      have h3' : s3.length ≤ s2.length := h3
-      exact Spec.ret _ (by show s3.length ≤ s.length; omega)
-    · exact Spec.fail
+      refine Spec.bind (iterMax_spec (hi value rfl) n 0 s2 (Nat.zero_le _)) (fun ⟨d, s3⟩ h3 => ?_)
+      have h3' : s3.length ≤ s2.length ∧ d ≤ K := h3
+      exact Spec.ret _ ⟨by show s3.length ≤ s.length; omega, by show 1 + d ≤ K + 1; omega⟩
+  · exact Spec.fail
 
-/-- the recursion depth of the element-value reader is at most `|input| / 3 + 1`: with that much stack there is no
-overflow (and no other panic) -/
-theorem readValue_depth_bound (gas level : Nat) (s : Bytes) (h : s.length / 3 + 1 ≤ gas) :
-    PanicsIn [] (readValue gas level s) :=
-  (readValue_short gas level s (by omega)).panicsIn
+/-- no panic, no allocation, a suffix is returned, and the value read is nested at most `rem + 1` deep -/
+theorem readValue_spec : ∀ (rem : Nat) (s : Bytes), Spec S B (readValue rem s) (Post s (rem + 1))
+  | 0, s => by
+    unfold readValue
+    exact readValueWith_spec (K := 0) (fun f h => by simp at h) s
+  | rem + 1, s => by
+    unfold readValue
+    exact readValueWith_spec (K := rem + 1) (fun f h s' => by
+      simp only [Option.some.injEq] at h; subst h; exact readValue_spec rem s') s
 
-/-! ## for every stack there is an input of `3·gas + 3` bytes that exhausts it -/
+theorem readPairs_spec (s : Bytes) : Spec S B (readPairs s) (fun r => r.2.length ≤ s.length) := by
+  unfold readPairs
+  refine Spec.bind (Spec.u16 s) (fun ⟨n, s1⟩ h1 => ?_)
+  have h1' : s.length = s1.length + 2 := h1.1
+  exact Spec.weaken (iterMax_spec (fun s => namedPair_spec (readValue_spec maxDepth) s) n 0 s1 (Nat.zero_le _))
+    (fun r hr => by have := hr.1; omega)
+
+theorem annoOp_spec (body : Bytes) : Spec [] 0 (annoOp body) (fun d => d ≤ maxDepth + 1) := by
+  unfold annoOp
+  exact Spec.bind (readValue_spec maxDepth _) (fun ⟨d, _⟩ h => Spec.ret _ h.2)
 
 theorem nested_length (d : Nat) : (nested d).length = 3 * d + 3 := by
   induction d with
   | zero => rfl
   | succ d ih => simp [nested, ih]; omega
-
-theorem nested_overflows : ∀ gas level rest st,
-    (readValue gas level (nested gas ++ rest) st).1 = .panic Sites.stackElementValue
-  | 0, level, rest, st => by
-    simp [readValue, bnd_apply, enter_apply, crash_apply]
-  | gas + 1, level, rest, st => by
-    have ih := nested_overflows gas (level + 1) rest
-    show (readValue (gas + 1) level (91 :: 0 :: 1 :: (nested gas ++ rest)) st).1 = _
-    unfold readValue
-    rw [bnd_apply, enter_apply]
-    dsimp only
-    rw [bnd_apply]
-    simp only [u8, ret_apply, show byte 91 = 91 by decide]
-    simp only [show ¬ (91 = 66 ∨ 91 = 67 ∨ 91 = 73 ∨ 91 = 83 ∨ 91 = 90) by decide, if_false,
-      show ¬ ((91 : Nat) = 68) by decide, show ¬ ((91 : Nat) = 70) by decide, show ¬ ((91 : Nat) = 74) by decide,
-      show ¬ ((91 : Nat) = 115) by decide, show ¬ ((91 : Nat) = 101) by decide, show ¬ ((91 : Nat) = 99) by decide,
-      show ¬ ((91 : Nat) = 64) by decide, if_true]
-    rw [bnd_apply]
-    simp only [u16, ret_apply, show byte 0 * 256 + byte 1 = 1 by decide]
-    apply bind_panic
-    unfold iterMax
-    exact bind_panic (ih _)
-
-theorem annoOp_nested_overflows (gas : Nat) (st : Acct) :
-    (annoOp gas (nested gas) st).1 = .panic Sites.stackElementValue := by
-  unfold annoOp
-  exact bind_panic (nested_overflows gas 1 [0, 0] st)
 
 end Total.Anno
